@@ -112,6 +112,12 @@ def plan(ctx):
                 jobs.append(("precursor", "mp", fos, variant, 3, f"{b},{b}", f"{i1},{i2}"))
             if ("isr", "mp", fos, variant, 3, f"{b},{b}", f"{i1},{i2}") not in jobs and (fos or not quick):
                 jobs.append(("isr", "mp", fos, variant, 3, f"{b},{b}", f"{i1},{i2}"))
+    # dip / dea: the lower class (hh / pp) has n_occ != n_virt; its projection first matters at second order
+    for variant, blk, idx in (("dip", "hh,phhh", "ij,klma"), ("dea", "pp,ppph", "ab,icde")):
+        for order in ((2,) if quick else (0, 1, 2)):
+            j = ("isr", "mp", False, variant, order, blk, idx)
+            if j not in jobs:
+                jobs.append(j)
     return jobs
 
 
